@@ -2246,6 +2246,12 @@ pub fn generate(data: &[u8], cfg: &GenCfg) -> Generated {
                     nm.append(i as u32, &gen_name(ch, prefix, i));
                 }
             }
+            // a name for an index nothing is defined at (producers leave such
+            // entries behind); it names nothing and must disturb nothing
+            if ch.chance(1, 10) {
+                let i = n + ch.below(3);
+                nm.append(i as u32, &format!("dangling_{}{}", prefix, i));
+            }
             nm
         };
         if ch.chance(3, 4) {
@@ -2271,6 +2277,11 @@ pub fn generate(data: &[u8], cfg: &GenCfg) -> Generated {
                     let nm = pick_names(ch, nl, "loc");
                     inm.append(fidx as u32, &nm);
                 }
+            }
+            // local names of a function that does not exist
+            if ch.chance(1, 10) {
+                let nm = pick_names(ch, 2, "loc");
+                inm.append((n_funcs_total + ch.below(2)) as u32, &nm);
             }
             ns.locals(&inm);
         }
